@@ -3,7 +3,8 @@
 import json, shutil, sys
 from pathlib import Path
 pid, name, det, note = sys.argv[1:5]
-src = Path("/var/tmp/seedout-%s" % pid)
+import os
+src = Path(os.environ.get("SEEDOUT", "/var/tmp/seedout-%s" % pid))
 dst = Path("/verif/seeded") / name
 dst.mkdir(parents=True, exist_ok=True)
 for f in ("patch.diff", "demo.py"):
